@@ -32,6 +32,34 @@ int main(int argc, char **argv) {
 	{ const unsigned char *imp; size_t n; KSI_DataHash_getImprint(r3, &imp, &n);
 	  if (n != saved_len || memcmp(imp, saved, n)) RP_FAIL("root hash for start level 0 changed after a failed recomputation for start level 200 (cache entry dangling: the object was recycled for an unrelated hash)"); }
 	KSI_DataHash_free(r3); KSI_DataHash_free(other);
+	/* every call on the shared object must equal the same call on a fresh object (the memo is keyed by the start level) */
+	{ static const int seqs[][5] = { {0, 200, 200, 0, 1}, {5, 155, 155, 154, 5}, {200, 200, 0, 0, 200}, {154, 155, 154, 155, 0} }; unsigned q, k;
+	  for (q = 0; q < sizeof(seqs) / sizeof(seqs[0]); q++) for (k = 0; k < 5; k++) {
+		KSI_DataHash *a = NULL, *b = NULL; int la = -1, lb = -1, ra, rb; KSI_AggregationHashChain *fresh = NULL; KSI_LIST(KSI_HashChainLink) *fl = NULL; KSI_HashChainLink *l2 = NULL;
+		KSI_DataHash *in2 = NULL, *h2 = NULL; KSI_Integer *lc2 = NULL, *alg2 = NULL;
+		memset(dig, 7, 32);
+		KSI_AggregationHashChain_new(ctx, &fresh); KSI_HashChainLinkList_new(&fl);
+		KSI_DataHash_fromDigest(ctx, KSI_HASHALG_SHA2_256, dig, 32, &in2); KSI_DataHash_fromDigest(ctx, KSI_HASHALG_SHA2_256, dig, 32, &h2);
+		KSI_HashChainLink_new(ctx, &l2); KSI_HashChainLink_setImprint(l2, h2); KSI_HashChainLink_setIsLeft(l2, 1);
+		KSI_Integer_new(ctx, 100, &lc2); KSI_HashChainLink_setLevelCorrection(l2, lc2); KSI_HashChainLinkList_append(fl, l2);
+		KSI_Integer_new(ctx, KSI_HASHALG_SHA2_256, &alg2);
+		KSI_AggregationHashChain_setChain(fresh, fl); KSI_AggregationHashChain_setInputHash(fresh, in2); KSI_AggregationHashChain_setAggrHashId(fresh, alg2);
+		if (k == 0) { KSI_AggregationHashChain_free(ch); ch = NULL;      /* new shared object per sequence */
+			{ KSI_LIST(KSI_HashChainLink) *sl = NULL; KSI_HashChainLink *l3 = NULL; KSI_DataHash *in3 = NULL, *h3 = NULL; KSI_Integer *lc3 = NULL, *alg3 = NULL;
+			  KSI_AggregationHashChain_new(ctx, &ch); KSI_HashChainLinkList_new(&sl);
+			  KSI_DataHash_fromDigest(ctx, KSI_HASHALG_SHA2_256, dig, 32, &in3); KSI_DataHash_fromDigest(ctx, KSI_HASHALG_SHA2_256, dig, 32, &h3);
+			  KSI_HashChainLink_new(ctx, &l3); KSI_HashChainLink_setImprint(l3, h3); KSI_HashChainLink_setIsLeft(l3, 1);
+			  KSI_Integer_new(ctx, 100, &lc3); KSI_HashChainLink_setLevelCorrection(l3, lc3); KSI_HashChainLinkList_append(sl, l3);
+			  KSI_Integer_new(ctx, KSI_HASHALG_SHA2_256, &alg3);
+			  KSI_AggregationHashChain_setChain(ch, sl); KSI_AggregationHashChain_setInputHash(ch, in3); KSI_AggregationHashChain_setAggrHashId(ch, alg3); } }
+		ra = KSI_AggregationHashChain_aggregate(ch, seqs[q][k], &la, &a);
+		rb = KSI_AggregationHashChain_aggregate(fresh, seqs[q][k], &lb, &b);
+		if ((ra == KSI_OK) != (rb == KSI_OK) || (ra == KSI_OK && (la != lb || !KSI_DataHash_equals(a, b)))) {
+			printf("sequence %u step %u (start level %d): shared chain object res=0x%x level=%d, fresh chain object res=0x%x level=%d\n", q, k, seqs[q][k], ra, la, rb, lb);
+			RP_FAIL("memoised chain result depends on earlier calls (not the value for this start level)");
+		}
+		KSI_DataHash_free(a); KSI_DataHash_free(b); KSI_AggregationHashChain_free(fresh);
+	  } }
 	KSI_AggregationHashChain_free(ch);
 	printf("clean\n");
 	return 0;
